@@ -4,5 +4,5 @@ CONSTANTS
   Views <- MC_SomeViews
   MaxTx = 2
 INVARIANTS TypeOK C16_AcceptOnlyMatching C16_AtMostThree C16_NoAcceptAfterCap C16_EndsOtherwise C16_OutcomeAllowed
-PROPERTY C16_Final
+PROPERTY Sanity_Final
 CHECK_DEADLOCK FALSE
